@@ -310,7 +310,16 @@ impl Check for C19 {
     fn generate(&self, seed: u64, index: u64) -> J {
         let mut rng = Rng::new(run_seed(seed, ID, index));
         let (stack, events) = gen_history(&mut rng);
-        J::obj().set("stack", stack).set(
+        // One scenario in four starts with something assembled earlier in the same process under
+        // the other feature setting (possible for library users; each setting on its own thread)
+        let prelude = if rng.chance(1, 4) {
+            J::obj()
+                .set("stack", !stack)
+                .set("text", "    push r1\n    pop r1\nP_lbl_1 halt\n")
+        } else {
+            J::Null
+        };
+        J::obj().set("stack", stack).set("prelude", prelude).set(
             "events",
             J::Arr(
                 events
@@ -332,6 +341,11 @@ impl Check for C19 {
         let texts: Vec<String> = events.iter().map(|e| e.0.clone()).collect();
         // Sensitivity control (selftest only): the closure with `reset_state()` left out
         let omit_reset = scenario.get_bool("omit_reset").unwrap_or(false);
+        if let Some(prelude) = scenario.get("prelude").filter(|p| !matches!(p, J::Null)) {
+            let text = prelude.get_str("text").unwrap_or("").to_string();
+            let _ = fresh(prelude.get_bool("stack").unwrap_or(false), text);
+            report.hit("fault:earlier_assembly_under_other_feature_setting");
+        }
         let seen = watcher(stack, texts.clone(), omit_reset);
         let mut v = Vec::new();
         let mut sig: Vec<u8> = Vec::new();
@@ -378,7 +392,8 @@ impl Check for C19 {
         }
         // Every eighth history is also compared with a fresh *process* (state that is global to
         // the process, not to the thread, would fool the fresh-thread comparison)
-        if v.is_empty() && !omit_reset && fnv(scenario.to_string().as_bytes()) % 8 == 0 {
+        let with_prelude = scenario.get("prelude").is_some_and(|p| !matches!(p, J::Null));
+        if v.is_empty() && !omit_reset && (with_prelude || fnv(scenario.to_string().as_bytes()) % 8 == 0) {
             if let Some(expected) = fresh_process(stack, &texts[..seen.len()]) {
                 report.hit("probe:compared_with_fresh_process");
                 for (i, rendered) in seen.iter().enumerate() {
@@ -409,6 +424,9 @@ impl Check for C19 {
     fn shrink(&self, scenario: &J) -> Vec<J> {
         let events: Vec<J> = scenario.get_arr("events").map(|a| a.to_vec()).unwrap_or_default();
         let mut out = Vec::new();
+        if scenario.get("prelude").is_some_and(|p| !matches!(p, J::Null)) {
+            out.push(scenario.clone().set("prelude", J::Null));
+        }
         for e in scn::shrink_list(&events) {
             if e.len() >= 1 {
                 out.push(scenario.clone().set("events", J::Arr(e)));
